@@ -122,6 +122,8 @@ def explore(root, tier, ctx):
         for i in range(root["start"], root["stop"]):
             kind, init, ch = tl[i]
             check_tempo_list(kind, init, ch, QLEN[tier], ctx)
+            if i + 1 < len(tl):
+                check_reuse(tl[i], tl[i + 1], ctx)
     elif root["kind"] == "snapper":
         check_snapper(root["part"], ctx)
     elif root["kind"] == "snap_arith":
@@ -135,6 +137,9 @@ def replay(case, ctx):
     if k == "tempo":
         ch = [(F_(b), m, me, F_(be)) for b, m, me, be in case["changes"]]
         check_tempo_list(case["family"], F_(case["init"]), ch, case.get("qlen", 3), ctx, only_query=case.get("query"))
+    elif k == "reuse":
+        check_reuse((case["family"], F_(case["init"]), [(F_(b), m, me, F_(be)) for b, m, me, be in case["changes"]]),
+                    (case["family2"], F_(case["init2"]), [(F_(b), m, me, F_(be)) for b, m, me, be in case["changes2"]]), ctx)
     elif k == "snapper":
         for p in range(4):
             check_snapper(p, ctx)
@@ -283,6 +288,56 @@ def check_tempo_list(kind, init, ch, qlen, ctx, only_query=None):
                     ctx.check("beats.monotone", mono, site=dict(site0), case=case, observed=[str(x) for x in bt], expected="non-decreasing with time")
                 except Exception as e:
                     ctx.check("beats.raises", False, site=dict(site0, exc=type(e).__name__), case=case, observed=f"{type(e).__name__}: {e}"[:200], expected="beats")
+
+
+def check_reuse(a, b, ctx):
+    """Second use: a TimingMap built for tempo list A is queried, then its bpm_changes_offset (the ground truth the
+    snaps are re-derived from on every call) is replaced by list B's - once by editing the list in place, once by
+    assigning a new list - and queried again: every answer is B's."""
+    from reamber.algorithms.timing.TimingMap import TimingMap
+    from reamber.algorithms.timing.utils.BpmChangeSnap import BpmChangeSnap
+    from reamber.algorithms.timing.utils.Snapper import Snapper
+    from reamber.algorithms.timing.utils.snap import Snap
+
+    (ka, ia, cha), (kb, ib, chb) = a, b
+    sn = Snapper()
+    case = dict(kind="reuse", family=ka, init=str(ia), changes=[(str(x), m, me, str(be)) for x, m, me, be in cha],
+                family2=kb, init2=str(ib), changes2=[(str(x), m, me, str(be)) for x, m, me, be in chb])
+
+    def mk(init, ch):
+        return TimingMap.from_bpm_changes_snap(float(init), [BpmChangeSnap(float(x), m, Snap(me, be, m)) for x, m, me, be in ch], False)
+
+    ts = rt.change_times(ib, chb)
+    qpos = qpositions(chb)
+    exp = [rt.offset_of(ib, chb, me, be, ts) for me, be in qpos]
+    for how in ("edit list in place", "assign new list"):
+        site = dict(reuse=how)
+        ctx.state(("reuse", how, ka, str(ia), tuple(case["changes"]), kb, str(ib), tuple(case["changes2"])), nontrivial=True)
+        ctx.case()
+        ctx.transition(3)
+        try:
+            tm, fresh = mk(ia, cha), mk(ib, chb)
+            qa = qpositions(cha)
+            first = tm.offsets([Snap(me, be, cha[rt.active_index(cha, me, be)][1]) for me, be in qa])
+            tm.snaps(list(first), sn)
+            if how == "edit list in place":
+                tm.bpm_changes_offset[:] = list(fresh.bpm_changes_offset)
+            else:
+                tm.bpm_changes_offset = list(fresh.bpm_changes_offset)
+            snaps = [Snap(me, be, chb[rt.active_index(chb, me, be)][1]) for me, be in qpos]
+            o = tm.offsets(snaps)
+            ok = len(o) == len(exp) and all(close(x, e) for x, e in zip(o, exp))
+            ctx.check("reuse.offsets", ok, site=site, case=case, observed=[float(x) for x in o], expected=[float(e) for e in exp])
+            if ok:
+                s2 = tm.snaps(list(o), sn)
+                ok2 = all((x.measure, x.beat) == (me, be) for x, (me, be) in zip(s2, qpos))
+                ctx.check("reuse.snaps", ok2, site=site, case=case, observed=[(int(x.measure), str(x.beat)) for x in s2], expected=[(me, str(be)) for me, be in qpos])
+                if kb == "B":
+                    m = chb[0][1]
+                    bt = [F_(x) for x in tm.beats(list(o), sn)]
+                    ctx.check("reuse.beats", bt == [m * me + be for me, be in qpos], site=site, case=case, observed=[str(x) for x in bt], expected=[str(m * me + be) for me, be in qpos])
+        except Exception as e:
+            ctx.check("reuse.raises", False, site=dict(site, exc=type(e).__name__), case=case, observed=f"{type(e).__name__}: {e}"[:200], expected="answers for the edited tempo list")
 
 
 def check_snapper(part, ctx):
